@@ -67,6 +67,32 @@ def corpus(tier):
             for g in gens:
                 out.append('#[derive(Educe)] #[educe(%s)] struct Ty%s { f: %s, n: u8 }' % (ts.replace('%s', b), g, uses[g]))
                 out.append('#[derive(Educe)] #[educe(%s)] enum Ty%s { %sA(%s), B { n: u8 } }' % (ts.replace('%s', b), g, '#[educe(Default)] ' if 'Default' in ts else '', uses[g]))
+    # an item refused inside the second handler of a coupled pair, then an item educing that second trait alone (and the other way round)
+    for a, b in (('PartialOrd', 'Ord'), ('PartialEq', 'Eq'), ('Clone', 'Copy'), ('Deref', 'DerefMut')):
+        mk = '#[educe(Deref, DerefMut)] ' if a == 'Deref' else ''
+        out.append('#[derive(Educe)] #[educe(%s, %s(bogus))] struct Ty { %sa: u8, b: u8 }' % (a, b, mk))
+        out.append('#[derive(Educe)] #[educe(%s)] struct Ty { %sa: u8, b: u8 }' % (b, mk.replace('Deref, ', '')))
+        out.append('#[derive(Educe)] #[educe(%s(bogus), %s)] enum Ty { A(%su8), B { %sx: u8 } }' % (a, b, mk, mk))
+        out.append('#[derive(Educe)] #[educe(%s)] enum Ty { A(%su8), B { %sx: u8 } }' % (b, mk.replace('Deref, ', ''), mk.replace('Deref, ', '')))
+        out.append('#[derive(Educe)] #[educe(%s)] enum Ty { A(%su8), B { %sx: u8 } }' % (a, mk.replace(', DerefMut', ''), mk.replace(', DerefMut', '')))
+    out.append('#[derive(Educe)] #[educe(PartialEq, Eq, PartialOrd, Ord)] struct Ty { #[educe(Ord(rank = 1))] a: u8, #[educe(Ord(rank = 1))] b: u8 }')
+    out.append('#[derive(Educe)] #[educe(PartialOrd, Ord)] union Ty { a: u8 }')
+    out.append('#[derive(Educe)] #[educe(Ord)] struct Ty { a: u8, b: u8 }')
+    out.append('#[derive(Educe)] #[educe(Ord)] enum Ty { A(u8), B }')
+    # malformed parameters of every trait at every level and on every kind of item: the text of a diagnostic must not depend on what was expanded before
+    for t in ('Debug', 'Clone', 'Copy', 'PartialEq', 'Eq', 'PartialOrd', 'Ord', 'Hash', 'Default', 'Deref', 'DerefMut', 'Into'):
+        tl = {'Into': 'Into(u8)', 'Ord': 'PartialOrd, Ord', 'Eq': 'PartialEq, Eq', 'Copy': 'Copy, Clone', 'DerefMut': 'Deref, DerefMut'}.get(t, t)
+        utl = {'Debug': 'Debug(unsafe)', 'PartialEq': 'PartialEq(unsafe)', 'Hash': 'Hash(unsafe)', 'Eq': 'PartialEq(unsafe), Eq'}.get(t, tl)
+        bad_ = '%s(bogus)' % t if t != 'Into' else 'Into(u8, bogus)'
+        out.append('#[derive(Educe)] #[educe(%s)] struct Ty { a: u8 }' % bad_)
+        out.append('#[derive(Educe)] #[educe(%s)] struct Ty { #[educe(%s)] a: u8, b: u8 }' % (tl, bad_))
+        out.append('#[derive(Educe)] #[educe(%s)] struct Ty(u8, #[educe(%s)] u8);' % (tl, bad_))
+        out.append('#[derive(Educe)] #[educe(%s)] enum Ty { #[educe(%s)] A(u8), B { x: u8 } }' % (tl, bad_))
+        out.append('#[derive(Educe)] #[educe(%s)] enum Ty { A(u8), B { #[educe(%s)] x: u8 } }' % (tl, bad_))
+        if t in ('Debug', 'Clone', 'Copy', 'PartialEq', 'Eq', 'Hash', 'Default'):
+            out.append('#[derive(Educe)] #[educe(%s)] union Ty { #[educe(%s)] a: u8, b: u16 }' % (utl, bad_))
+            out.append('#[derive(Educe)] #[educe(%s)] union Ty { #[educe(%s)] a: u8, b: u16 }' % (utl, {'Default': 'Default(ignore)'}.get(t, '%s(ignore)' % t)))
+        out.append('#[derive(Educe)] #[educe(%s)] struct Ty { #[educe(%s)] a: u8, b: u8 }' % (tl, {'Default': 'Default(skip)', 'Into': 'Into(u8, skip)'}.get(t, '%s(skip)' % t)))
     # the same type under different levels of references / by value, in one process in both orders (anything remembered per type must tell them apart)
     for t in ('u8', 'str', 'W'):
         for lvl in ('{T}', "&'static {T}", "&'static &'static {T}", "&'static mut {T}", '&{T}'):
